@@ -204,6 +204,7 @@ def mon_optimize(case, ev, check_optimality=True, time_limit=30.):
     case.event('mon_optimize')
     bi = solve.bool_vars(s) if not soft else np.zeros(0, int)
     is_mip = len(bi) > 0
+    info['n_bool'] = int(len(bi))
     case.feature('mip' if is_mip else 'lp', 'solver:' + str(solver))
     if isinstance(res, str):
         if res == 'inaccurate':
@@ -227,7 +228,7 @@ def mon_optimize(case, ev, check_optimality=True, time_limit=30.):
         xb = x[bi]
         inbox = np.all(xb >= s.l[bi] - 1e-6) and np.all(xb <= s.u[bi] + 1e-6)
         case.check('opt.booleans', bool(r['int'] <= solve.TOL_INT and np.all(np.abs(xb - np.clip(np.round(xb), 0, 1)) <= solve.TOL_INT) and inbox),
-                   **info, worst=r['int'], n_bool=len(bi))
+                   **info, worst=r['int'])
     cnt = solve.binding_counts(s, x)
     for t, k in cnt.items():
         case.stats['binding_' + t] += k
